@@ -40,6 +40,27 @@ def find_from_value(fx, wrap, ver_enum):
     return c[0] if len(c) == 1 else None
 
 
+def _names_variant(fx, t):
+    """The callee is a local function PredicateWrapper -> PredicateVer whose every result is the version constant named like the
+    variant it was matched on (`LinkV0_2(_) => PredicateVer::LinkV0_2`)."""
+    g = fx.fns.get(t.get("resolved_key") or t.get("callee_key"))
+    if g is None or g.get("exp") or not g["locals"][0]["ty"].endswith("predicate::PredicateVer") or g["arg_count"] != 1:
+        return False
+    gb = body_of(fx, g["key"])
+    n = 0
+    for i in sorted(gb.reach):
+        for st in gb.blocks[i]["stmts"]:
+            if st["k"] == "assign" and st["dst"]["l"] == 0 and not st["dst"]["p"]:
+                rv = st["rv"]
+                if not (rv["k"] == "agg" and (rv.get("adt") or "").endswith("predicate::PredicateVer") and not rv.get("ops")):
+                    return False
+                arm = [fa[2] for (e, fa) in gb.facts_dominating(i) if fa[0] == "variant" and (fa[3] or "").endswith("predicate::PredicateWrapper")]
+                if not arm or arm[-1] != rv.get("variant"):
+                    return False
+                n += 1
+    return n >= 2
+
+
 def run(ctx):
     fx = ctx.fx
     S = Schema(fx)
@@ -123,8 +144,11 @@ def run(ctx):
                 sides = []
                 for o in (c[1], c[2]):
                     lv = gb.trace(o)
-                    if lv and all(l.kind == "param" and l.path[-1:] == (("f", "predicate_type"),) for l in lv):
-                        sides.append("declared")
+                    if lv and all(l.kind in ("param", "call") and l.path[-1:] == (("f", "predicate_type"),) for l in lv):
+                        sides.append("declared")       # of the statement handed in, or of the one just decoded from it
+                    elif lv and all(l.kind == "call" and _names_variant(fx, l.data[1]) and
+                                    all(("f", "predicate") in r.path for r in gb.trace(l.data[1]["args"][0])) for l in lv):
+                        sides.append("actual")         # a local function that names the format by the variant the predicate is stored in
                     elif lv and all(l.kind == "call" and (callee_name(l.data[1]) or "").endswith("PredicateLayout::version") for l in lv):
                         # the receiver derives from the same value's predicate
                         ok_recv = True
